@@ -332,7 +332,9 @@ def dstepCore (st : DState) (line : String) : DState × Option String :=
         | some x => x.accounts.contains acct
         | none => false
       let permitted := client == "client1"
-      let (ok, allHold) := Dkg.generateOutcome c.insts.length n t (Dkg.distributedWallet acct) exists_ permitted (faultKind fault)
+      let elsewhere := c.insts.any (fun x => x.id != ini && x.accounts.contains acct)
+      let fk := if faultKind fault == .none && elsewhere then Dkg.GenFault.heldElsewhere else faultKind fault
+      let (ok, allHold) := Dkg.generateOutcome c.insts.length n t (Dkg.distributedWallet acct) exists_ permitted fk
       let c' := if allHold && n == c.insts.length then
                   { c with insts := c.insts.map (fun x => { x with accounts := acct :: x.accounts }) }
                 else if allHold && n == 1 then
@@ -353,6 +355,15 @@ def dstepCore (st : DState) (line : String) : DState × Option String :=
       let (c, r) := Dkg.onPrepare st.cluster i (callerId st.cluster caller) acct t parts
       ({ st with cluster := c }, some r.toStr)
     | _, _, _, _, _ => bad st line
+  -- k Prepare messages for one name at the same moment: whatever the order, the model accepts them one after another
+  | ["cprepare", i, caller, acct, k, t, parts] =>
+    match i.toNat?, hs caller, unhexStr acct, k.toNat?, t.toNat?, parseIds parts with
+    | some i, some caller, some acct, some k, some t, some parts =>
+      let r := (List.range k).foldl (fun (acc : Dkg.Cluster × Nat) _ =>
+        let o := Dkg.onPrepare acc.1 i (callerId st.cluster caller) acct t parts
+        (o.1, if o.2 == .ok then acc.2 + 1 else acc.2)) (st.cluster, 0)
+      ({ st with cluster := r.1 }, some ("ok=" ++ toString r.2))
+    | _, _, _, _, _, _ => bad st line
   | ["hexecute", i, caller, acct] =>
     match i.toNat?, hs caller, unhexStr acct with
     | some i, some caller, some acct =>
@@ -401,6 +412,22 @@ def dstepCore (st : DState) (line : String) : DState × Option String :=
       let r := signAtts base "client1" [({ name := acct }, d)] {}
       ({ st with minsts := (i, r.1) :: st.minsts.filter (·.1 != i) }, some (match r.2 with | [p] => posStr p | _ => "?"))
     | _, _, _ => bad st line
+  -- a batch of two: the duty for `acct` first, an attestation of another account of the same instance second
+  | ["iatts2", i, acct, d, acct2, d2] =>
+    match i.toNat?, unhexStr acct, parseAtt (d.splitOn ","), unhexStr acct2, parseAtt (d2.splitOn ",") with
+    | some i, some acct, some d, some acct2, some d2 =>
+      let wa := match walletAndAccount acct with
+        | some p => p
+        | none => ("", "")
+      let wa2 := match walletAndAccount acct2 with
+        | some p => p
+        | none => ("", "")
+      let b1 := clusterInst st.minsts i wa.1 wa.2
+      let b2 := clusterInst ((i, b1) :: st.minsts.filter (·.1 != i)) i wa2.1 wa2.2
+      let r := signAtts b2 "client1" [({ name := acct }, d), ({ name := acct2 }, d2)] {}
+      ({ st with minsts := (i, r.1) :: st.minsts.filter (·.1 != i) },
+       some (match r.2 with | [p, q] => q.res.toStr ++ "/" ++ posStr p | _ => "?"))
+    | _, _, _, _, _ => bad st line
   | ["iprop", i, acct, d] =>
     match i.toNat?, unhexStr acct, parseProp (d.splitOn ",") with
     | some i, some acct, some d =>
